@@ -23,7 +23,7 @@ TIERS = {
 }
 
 DIRS = ["", "sub", "sub/deep", "other", "data dir", "sub/ünï"]
-NB_NAMES = ["a.ipynb", "b.ipynb", "c.ipynb", "x y.ipynb", "z.ipynb"]
+NB_NAMES = ["a.ipynb", "b.ipynb", "c.ipynb", "x y.ipynb", "z.ipynb", "a (1).ipynb"]
 OTHER_NAMES = ["notes.txt", "script.py", "d.ipynb.bak", "README.md", "e.json"]
 
 _real_popen = subprocess.Popen
